@@ -55,6 +55,7 @@ func checkC02(c *Check) {
 	c02CommitNeverFails(c, "R11")
 	c02ReportID(c, "R12")
 	c02StagingTruncated(c, "R13")
+	c12StagingFilePerMessage(c, "R14")
 	c02ErrorsNotSwallowed(c)
 	c02CleanupOnlyWhenGone(c)
 }
